@@ -143,11 +143,13 @@ func (s *Server) handleConn(ctx context.Context, conn net.Conn) error {
 			return nil
 		case *pgproto3.Query:
 			start := time.Now()
+			// Authorize (and cache by) the full text that is forwarded; the truncated
+			// form is only for the audit log.
 			trimmed := trimQuery(m.String)
-			key := cacheKey(trimmed)
+			key := cacheKey(m.String)
 			decision, hit := cache.get(key)
 			if !hit {
-				allowed, reason, topics, showTopics := authorizeQuery(acl, trimmed)
+				allowed, reason, topics, showTopics := authorizeQuery(acl, m.String)
 				decision = cacheDecision{
 					created:    time.Now(),
 					allowed:    allowed,
